@@ -472,16 +472,10 @@ def bind_native_fun(environment, func, alias=None):
 
 
 def callback_args(fn, values, pos):
-    names = fn.getArgNames()
-    if len(names) < len(values):
-        raise CklRuntimeError(
-            ValueString("ERROR"),
-            f"Function {fn.name} must accept {len(values)} argument(s)",
-            pos,
-        )
+    # bind like any other call: surplus values go to a rest parameter
     args = Args(pos)
-    for name, value in zip(names, values):
-        args.addArg(name, value)
+    args.addArgs(fn.getArgNames())
+    args.setArgs([None] * len(values), values)
     return args
 
 
